@@ -182,10 +182,13 @@ var brackets = []string{
 	`[^a-cx-z-[b]]`, `[\d\w-[5M]]`, `[a-z-[^b-y]]`,
 }
 
-var quantBases = []string{`a`, `[ab]`, `(ab)`, `(a|b)`, `\x41`, `a*`, `(?i)a`, `a|b`, ``, `(`, `|`, `(?i)`, `()`, `(a|)`, `\p{Lu}`, `{a}`, `ab`, `aé`}
+var quantBases = []string{`a`, `[ab]`, `(ab)`, `(a|b)`, `\x41`, `a*`, `(?i)a`, `a|b`, ``, `(`, `|`, `(?i)`, `()`, `(a|)`, `\p{Lu}`, `{a}`, `ab`, `aé`,
+	// literal runs of length 2 and 3 (lex merges them into one node: the quantifier must still bind
+	// to the last character only), also after a class, digits under (?i), escaped characters
+	`abc`, `[x]a`, `[x]ab`, `[x]abc`, `12`, `123`, `(?i)12`, `(?i)ab`, `(?i)a1`, `\.\.`, `a\.`, `\.a`, `a.`, `ab|cd`, `(ab|cd)`, `x(ab)`, `--`, `a-`}
 
 func quantifiers() []string {
-	nums := []string{"0", "1", "2", "3", "7", "16", "17", "007", "99999999999999999999"}
+	nums := []string{"0", "1", "2", "3", "7", "9", "10", "16", "17", "00", "01", "007", "99999999999999999999"}
 	var out []string
 	for _, m := range nums {
 		out = append(out, `{`+m+`}`, `{`+m+`,}`)
@@ -211,6 +214,12 @@ var flagBodies = []string{`a`, `A`, `aZ`, `[a]`, `[^a]`, `[a-c]`, `[^a-c]`, `\x4
 func parenWords() []string { return wordsUpTo("()a|", 7) }
 
 var misc = []string{
+	// deviations of the unmodified tree listed by the round-3 seeder (all documentation-silent, see
+	// the unspec() comments in internal/rxparse): subtraction after a single character, fold x
+	// subtraction, \Q..\E under fold, standalone property under fold, high escapes in byte mode,
+	// String() of a repeated group
+	`[az-[a]]`, `[aA-[a]]`, `[a-cz-[a]]`, `[\x41-[A]]`, `[a-cx-[b]]`, `(?i)[a-c-[B]]`, `(?i)[a-c-[b]]`, `(?i)\Qab\E`, `(?i)\p{Other_Uppercase}`,
+	`(?i)[\p{Other_Uppercase}]`, `\xe9`, `[\xe9]`, `\200`, `[\200]`, `\xe9+`, `[\xe9\xea]`, `(ab){0,1}`, `ab?`, `[x]ab{0}`, `[x]ab{0,}`, `[x]ab{0,2}c`,
 	`.`, `.*`, `a.b`, `\.`, `.{2}`, `(.|\n)`, `\Qa+b\Ec`, `\Q`, `\Qab`, `a\Q\E*`, `\E`, `\Q(\E`, `[\Qa\E]`, `\Q\E`, `\Q\\E`, `\Qa\Eb\Qc\E`,
 	`0o7(_*7)*_+`, `a(b|c)+`, `a+|(b|cd|)`, `abcd{2,}`, `AB|A(BC+)?`, `([0-9]|[a-z])+`, `(a+)+`, `-?0`, `[a-z](-*[a-z])*`,
 	`é`, `éa`, `aé+`, `αβ+`, `γ`, "K", "ſ", "\U00010400", "a\U00010400b", "�", `}`, `]`, `a}`, `a]`, `^a`, `a$`, `a^`, `$`, `^`, `-`, `a-z`,
